@@ -24,7 +24,9 @@
 (***************************************************************************)
 EXTENDS Query, Pool, StreamName, TLC
 
-CONSTANTS MaxRows          \* 65536 in the library's reader; scaled in bounded models
+CONSTANTS MaxRows,         \* 65536 in the library's reader; scaled in bounded models
+          ExactPool        \* TRUE: packages written by the library (exact reference counts);
+                           \* FALSE: files of other writers may over-count (C02)
 
 VARIABLES
   schemas,   \* in memory: table name -> column list (catalog tables included)
@@ -280,10 +282,12 @@ Flush     == Close("Flush", "open")
 IntoInner == Close("IntoInner", "closed")
 DropPkg   == Close("DropPkg", "closed")
 
-\* Opening the bytes on the medium.
+\* Opening the bytes on the medium.  Unused entries are empty in memory even if the file (written by
+\* another tool) still carries their stale text.
+NormPool(p) == [k \in 1..Len(p) |-> IF p[k].rc = 0 THEN Free ELSE p[k]]
 Load(op) ==
   /\ schemas' = DecodeSchemas(tstream, dpool.e)
-  /\ pool' = dpool.e /\ cp' = dpool.cp /\ summary' = dsum
+  /\ pool' = NormPool(dpool.e) /\ cp' = dpool.cp /\ summary' = dsum
   /\ dirty' = [fin |-> FALSE, sum |-> FALSE, pool |-> FALSE]
   /\ sess' = "open" /\ ro' = TRUE
   /\ UNCHANGED <<tstream, ustreams, ptype>> /\ DiskSame
@@ -311,7 +315,7 @@ Nxt == [schemas |-> schemas', tstream |-> tstream', pool |-> pool', cp |-> cp', 
 RowsS(s, t)  == RowsIn(s.pool, s.tstream, t)
 AbsS(s)      == AbsOf(s.schemas, s.tstream, s.pool, s.cp, s.summary, s.ustreams, s.ptype)
 LoadedS(s)   == AbsOf(DecodeSchemas(s.tstream, s.dpool.e), s.tstream, s.dpool.e, s.dpool.cp, s.dsum, s.ustreams, s.ptype)
-MemWFS(s)    == PoolWF(s.pool, AllRowsOf(s.tstream))
+MemWFS(s)    == IF ExactPool THEN PoolWF(s.pool, AllRowsOf(s.tstream)) ELSE PoolLoose(s.pool, AllRowsOf(s.tstream))
 
 Same(s, s1, fields) == \A f \in fields : s1[f] = s[f]
 Medium   == {"dpool", "dsum"}
@@ -459,7 +463,7 @@ CloseSpec(s, s2, res, s1) ==
 LoadSpec(s, res, s1) ==
   /\ res = "Ok" /\ s1.sess = "open"
   /\ Same(s, s1, {"tstream", "ustreams", "ptype"} \cup Medium)
-  /\ s1.pool = s.dpool.e /\ s1.cp = s.dpool.cp /\ s1.summary = s.dsum
+  /\ s1.pool = NormPool(s.dpool.e) /\ s1.cp = s.dpool.cp /\ s1.summary = s.dsum
   /\ s1.schemas = DecodeSchemas(s.tstream, s.dpool.e)
   /\ ~s1.dirty.fin /\ ~s1.dirty.sum /\ ~s1.dirty.pool
 
